@@ -149,9 +149,14 @@ class Surf:
 
     def atoms(self):
         out = [f'{self.flag}{self.id}']
-        if self.tr is not None:
-            out.append(str(self.tr))
-        out.append(self.kind)
+        if self.tr is not None and getattr(self, 'glued', False):
+            # (a malformed card, for the fault classes: the transformation
+            # number and the mnemonic written as one entry)
+            out.append(f'{self.tr}{self.kind}')
+        else:
+            if self.tr is not None:
+                out.append(str(self.tr))
+            out.append(self.kind)
         out.extend(fnum(v) for v in self.params)
         return out
 
